@@ -34,7 +34,7 @@ structure CapNum (m : Mem) : Prop where
   bound : m.absEnd ≤ m.capacityLimit
   /-- and so will it once the pending records are committed (they are appended at `data_end`) -/
   pend : hasFresh m.pending = true →
-    m.base + max m.payloadEnd m.dataEnd + freshBytes m.pending ≤ m.capacityLimit
+    m.base + max m.payloadEnd m.dataEnd + pendingPayloadBytes m.pending ≤ m.capacityLimit
   /-- every stored payload lies inside the payload region -/
   within : Within m.frames m.payloadEnd
   /-- payloads are pending only in a dirty handle (so `Drop` commits them) -/
@@ -72,9 +72,9 @@ theorem Light.inv {m' m : Mem} (l : Light m' m) (h : Inv m) : Inv m' := by
   · rw [l.keeps.frames, l.pending]; exact h.ok
   · rw [l.pi, l.pending]; exact h.pi
 
-theorem Light.overCapacity {m' m : Mem} (l : Light m' m) (a : PutArgs) (r : Option Nat) :
-    m'.overCapacity a r = m.overCapacity a r := by
-  unfold Mem.overCapacity Mem.projectedEnd Mem.pendingBytes
+theorem Light.overCap {m' m : Mem} (l : Light m' m) (a : PutArgs) (r : Option Nat) :
+    m'.overCap a r = m.overCap a r := by
+  unfold Mem.overCap
   rw [l.keeps.base, l.keeps.pe, l.dataEnd, l.pending, l.keeps.cap]
 
 theorem enableVec_light (m : Mem) : Light m.enableVec m := by
@@ -111,7 +111,7 @@ theorem prePut_light (m : Mem) (a : PutArgs) : Light (m.prePut a) m := by
 
 /-- the state after the records of `m` were applied (`m1`) and the rest of a commit / recovery ran (`R`) -/
 theorem capnum_after_apply (m m1 R : Mem) (h : CapNum m)
-    (p : m1.payloadEnd ≤ (if hasFresh m.pending then max m.payloadEnd (m.dataEnd + freshBytes m.pending) else m.payloadEnd))
+    (p : m1.payloadEnd ≤ (if hasFresh m.pending then max m.payloadEnd (m.dataEnd + pendingPayloadBytes m.pending) else m.payloadEnd))
     (w : Within m1.frames m1.payloadEnd) (ws : m1.walSize = m.walSize) (tc : m1.ticketCap = m.ticketCap)
     (hk : Keeps R m1) (hp : hasFresh R.pending = false) : CapNum R := by
   have hcap : R.capacityLimit = m.capacityLimit := hk.cap.trans (capacityLimit_congr tc ws)
@@ -231,13 +231,13 @@ theorem putCore_shape (m : Mem) (a : PutArgs) (sup reuse : Option Nat) (t : Trac
 /-- an accepted put whose exact check passed: the invariant survives the appends, the automatic
     checkpoint and the card bookkeeping -/
 theorem accepted_capnum (m0 : Mem) (a : PutArgs) (sup reuse : Option Nat) (t : Trace) (k : Nat) (h : CapNum m0)
-    (hws : t.ws = m0.walSize) (hchk : m0.overCapacity a reuse = false) :
+    (hws : t.ws = m0.walSize) (hchk : m0.overCap a reuse = false) :
     CapNum (((m0.appendPut a sup reuse).afterAppend t).addCards a.nc k) := by
   have h1 : CapNum (m0.appendPut a sup reuse) := by
     constructor
     · exact h.bound
     · intro hf
-      show m0.base + max m0.payloadEnd m0.dataEnd + freshBytes (m0.pending ++ putRecords m0.seq a sup reuse) ≤ m0.capacityLimit
+      show m0.base + max m0.payloadEnd m0.dataEnd + pendingPayloadBytes (m0.pending ++ putRecords m0.seq a sup reuse) ≤ m0.capacityLimit
       have hf' : hasFresh (m0.pending ++ putRecords m0.seq a sup reuse) = true := hf
       rw [hasFresh_append, hasFresh_putRecords] at hf'
       rw [freshBytes_append, freshBytes_putRecords]
@@ -246,7 +246,7 @@ theorem accepted_capnum (m0 : Mem) (a : PutArgs) (sup reuse : Option Nat) (t : T
         rw [hap] at hf'
         have := h.pend (by simpa using hf')
         omega
-      · unfold Mem.overCapacity Mem.projectedEnd Mem.pendingBytes at hchk
+      · unfold Mem.overCap Mem.projectedEnd Mem.pendingBytes at hchk
         rw [hap] at hchk
         simp at hchk
         omega
@@ -267,7 +267,7 @@ theorem putCoreR_capnum (m : Mem) (a : PutArgs) (sup reuse : Option Nat) (t : Tr
       rw [he]
       have hl := prePut_light m a
       exact accepted_capnum (m.prePut a) a sup reuse t _ (hl.capnum h) (by rw [hl.keeps.ws]; exact hws)
-        (by rw [hl.overCapacity]; simpa using hchk)
+        (by rw [hl.overCap]; simpa using hchk)
 
 /-- `update_frame` of the current code, in the same two shapes -/
 theorem update_shape (m : Mem) (id : Nat) (u : UpdArgs) (t : Trace) :
@@ -301,15 +301,15 @@ theorem updateR_capnum (m : Mem) (id : Nat) (u : UpdArgs) (t : Trace) (h : CapNu
   · simp only [hy, Bool.not_true, Bool.false_eq_true, if_false, hold]
     have hl : Light (m.loadVec.prePut (inheritArgs old u (m.carriedEmb id u.emb))) m :=
       (prePut_light _ _).trans (loadVec_light m)
-    by_cases hov : m.loadVec.overCapacity (inheritArgs old u (m.carriedEmb id u.emb)) (updReuse u id) = true
+    by_cases hov : m.loadVec.overCap (inheritArgs old u (m.carriedEmb id u.emb)) (updReuse u id) = true
     · simp only [hov, if_true]
       exact hl.capnum h
-    · have hov' : m.loadVec.overCapacity (inheritArgs old u (m.carriedEmb id u.emb)) (updReuse u id) = false := by
+    · have hov' : m.loadVec.overCap (inheritArgs old u (m.carriedEmb id u.emb)) (updReuse u id) = false := by
         simpa using hov
       simp only [hov', Bool.false_eq_true, if_false]
       rw [he]
       exact accepted_capnum _ _ (some id) _ t _ (hl.capnum h) (by rw [hl.keeps.ws]; exact hws)
-        (by rw [(prePut_light _ _).overCapacity]; exact hov')
+        (by rw [(prePut_light _ _).overCap]; exact hov')
 
 theorem delete_capnum (m : Mem) (id : Nat) (t : Trace) (h : CapNum m) (hws : t.ws = m.walSize) :
     CapNum (m.delete id t).1 := by
@@ -322,12 +322,12 @@ theorem delete_capnum (m : Mem) (id : Nat) (t : Trace) (h : CapNum m) (hws : t.w
       constructor
       · exact h.bound
       · intro hf
-        show m.base + max m.payloadEnd m.dataEnd + freshBytes (m.pending ++ [(m.seq + 1, Entry.tombstone id)]) ≤ m.capacityLimit
+        show m.base + max m.payloadEnd m.dataEnd + pendingPayloadBytes (m.pending ++ [(m.seq + 1, Entry.tombstone id)]) ≤ m.capacityLimit
         have hf' : hasFresh (m.pending ++ [(m.seq + 1, Entry.tombstone id)]) = true := hf
         rw [hasFresh_append] at hf'
         rw [freshBytes_append]
         have := h.pend (by simpa [hasFresh_cons, Entry.isFresh] using hf')
-        simp [freshBytes_cons, Entry.freshBytes]
+        simp [freshBytes_cons, Entry.freshLen]
         omega
       · exact h.within
       · exact fun _ => rfl
@@ -351,7 +351,7 @@ theorem finalize_capnum (m : Mem) (ft : Nat) (h : CapNum m) : CapNum (m.finalize
   have hde := rebuildIndexes_dataEnd m [] [] ft
   have hfr : hasFresh (m.rebuildIndexes [] [] ft).pending = hasFresh m.pending := by
     rw [pl, hasFresh_append, hasFresh_onlyLex l ol, Bool.or_false]
-  have hfb : freshBytes (m.rebuildIndexes [] [] ft).pending = freshBytes m.pending := by
+  have hfb : pendingPayloadBytes (m.rebuildIndexes [] [] ft).pending = pendingPayloadBytes m.pending := by
     rw [pl, freshBytes_append, freshBytes_onlyLex l ol]; omega
   constructor
   · unfold Mem.absEnd; rw [hk.base, hk.pe, hk.cap]; exact h.bound
@@ -429,7 +429,7 @@ theorem create_capnum : CapNum Mem.create := by
 /-- the new grant covers what is already stored and what is already pending -/
 def GrantCovers (m : Mem) (limit : Nat) : Prop :=
   m.absEnd ≤ limit ∧
-  (hasFresh m.pending = true → m.base + max m.payloadEnd m.dataEnd + freshBytes m.pending ≤ limit)
+  (hasFresh m.pending = true → m.base + max m.payloadEnd m.dataEnd + pendingPayloadBytes m.pending ≤ limit)
 
 theorem applyTicket_capnum (m : Mem) (s : Int) (c : Nat) (b f : Bool) (h : CapNum m)
     (hg : GrantCovers m (m.applyTicket s c b f).1.capacityLimit) : CapNum (m.applyTicket s c b f).1 := by
@@ -480,7 +480,7 @@ theorem stepR_inv (m : Mem) (op : Op) (hi : Inv m) : Inv (stepR m op).1 := by
       | none => exact hcore
       | some old =>
         simp only []
-        by_cases hov : m.loadVec.overCapacity (inheritArgs old u (m.carriedEmb id u.emb)) (updReuse u id) = true
+        by_cases hov : m.loadVec.overCap (inheritArgs old u (m.carriedEmb id u.emb)) (updReuse u id) = true
         · simp only [hov, if_true]
           exact ((prePut_light _ _).trans (loadVec_light m)).inv hi
         · simp only [hov]
@@ -559,10 +559,10 @@ theorem C24_rejected_keeps_contents (m : Mem) (op : Op) (hop : (∃ a t, op = .p
     rcases putCore_shape m a none none t with ⟨hn, hl⟩ | ⟨hy, _⟩
     · simp only [hn, Bool.not_false, if_true]; exact hl
     · simp only [hy, Bool.not_true, Bool.false_eq_true, if_false] at hrej' ⊢
-      by_cases hov : m.overCapacity a none = true
+      by_cases hov : m.overCap a none = true
       · simp only [hov, if_true]
         exact prePut_light m a
-      · have hov' : m.overCapacity a none = false := by simpa using hov
+      · have hov' : m.overCap a none = false := by simpa using hov
         simp only [hov', Bool.false_eq_true, if_false, hy] at hrej'
         cases hrej'
   · have hrej' : (m.updateR id u t).2.isAck = false := hrej
@@ -571,10 +571,10 @@ theorem C24_rejected_keeps_contents (m : Mem) (op : Op) (hop : (∃ a t, op = .p
     rcases update_shape m id u t with ⟨hn, hl⟩ | ⟨old, hold, hy, _⟩
     · simp only [hn, Bool.not_false, if_true]; exact hl
     · simp only [hy, Bool.not_true, Bool.false_eq_true, if_false, hold] at hrej' ⊢
-      by_cases hov : m.loadVec.overCapacity (inheritArgs old u (m.carriedEmb id u.emb)) (updReuse u id) = true
+      by_cases hov : m.loadVec.overCap (inheritArgs old u (m.carriedEmb id u.emb)) (updReuse u id) = true
       · simp only [hov, if_true]
         exact (prePut_light _ _).trans (loadVec_light m)
-      · have hov' : m.loadVec.overCapacity (inheritArgs old u (m.carriedEmb id u.emb)) (updReuse u id) = false := by
+      · have hov' : m.loadVec.overCap (inheritArgs old u (m.carriedEmb id u.emb)) (updReuse u id) = false := by
           simpa using hov
         simp only [hov', Bool.false_eq_true, if_false, hy] at hrej'
         cases hrej'
@@ -622,9 +622,9 @@ theorem C24_rejected_put_is_prePut (m : Mem) (a : PutArgs) (t : Trace)
   simp only [Mem.putCoreR] at h' ⊢
   by_cases hack : (m.putCore a none none t).2.isAck = true
   · simp only [hack, Bool.not_true, Bool.false_eq_true, if_false] at h' ⊢
-    by_cases hov : m.overCapacity a none = true
+    by_cases hov : m.overCap a none = true
     · simp only [hov, if_true]
-    · have hov' : m.overCapacity a none = false := by simpa using hov
+    · have hov' : m.overCap a none = false := by simpa using hov
       simp only [hov', Bool.false_eq_true, if_false] at h'
       rw [h'] at hack
       cases hack
